@@ -337,6 +337,7 @@ pub fn run_filtered(target: &str, data: &[u8], only: Option<&str>) -> (&'static 
                 arena_prep,
                 big_chunk: false,
                 blocks,
+                two_arenas: arena_prep == 6 && cyclic,
             };
             let mut results = vec![];
             if want("C08") {
@@ -424,7 +425,7 @@ pub fn run_filtered(target: &str, data: &[u8], only: Option<&str>) -> (&'static 
             ("C15", c15::check_case(&c15::Case { backing, init, ops, init_fill }))
         }
         "sorted_deque" => {
-            let convention = [c16::Convention::PairVec, c16::Convention::PairSmall, c16::Convention::ItemVec][(c.u8() % 3) as usize];
+            let convention = [c16::Convention::PairVec, c16::Convention::PairSmall, c16::Convention::ItemVec, c16::Convention::WideSmall, c16::Convention::ReverseVec][(c.u8() % 5) as usize];
             let universe = match c.u8() % 4 {
                 0 => 0,
                 1 => 16,
